@@ -992,6 +992,9 @@ class CNLTransformer(Transformer):
 
     def string(self, elem) -> ValueComponent:
         if self._is_label(elem[0]):
+            # a label is a variable written by the author: taken from the moment it is read
+            if elem[0] not in self._defined_variables:
+                self._defined_variables.append(str(elem[0]))
             return ValueComponent(elem[0])
         return ValueComponent(elem[0])
 
